@@ -12,6 +12,18 @@ def inv_delay(delay, n):
     return z3.And(n >= 0, delay == z3.If(n == 0, 0, S.POW2(n - 1)))
 
 def build(repo, tier, seed):
+    from pyvc import run
+    try:
+        r = deductive(repo, tier, seed)
+    except (Unsupported, KeyError) as ex:
+        # e.g. the strategy object keeps its state in other fields than the representation invariant below talks about: the contracts do not
+        # apply as written; the bounded enumeration of call sequences on the real object still runs and any violation it finds is reported
+        r = PropResult([], undecided=[("deductive", f"contracts not applicable to this source ({type(ex).__name__}: {ex}); only the bounded enumeration ran")])
+    bb = run.rt_call("C18", "backoff_sequences", {"seed": seed, "maxlen": 12 if tier == "quick" else 14})
+    r.bounded.append(bb if "name" in bb else {"name": "backoff_sequences", "error": bb.get("error", bb)})
+    return r
+
+def deductive(repo, tier, seed):
     eng = Engine({"han.common": f"{repo}/han/common.py", "han.meter_connection": f"{repo}/han/meter_connection.py"})
     obls = []
     kk = z3.Int("kk")
@@ -142,7 +154,4 @@ def build(repo, tier, seed):
         explanation="C18: ghost failure counter n on the strategy object: invariant _delay == pow2(n-1) (0 for n == 0), failure/reset/current_delay_sec contracts for every max_delay >= 1 and every n (unbounded, "
                     "pow2 recursive); _get_back_off_time, the loss breaker update and the sequential contract of _try_connect (sleep exactly the back-off time before the single factory call; failure()/reset() exactly once).")
     r.not_decided = ["manager-level timing on a virtual clock (when connect_loop's tasks run relative to each other) depends on asyncio scheduling: not decided by per-call contracts"]
-    from pyvc import run
-    bb = run.rt_call("C18", "backoff_sequences", {"seed": seed, "maxlen": 12 if tier == "quick" else 14})
-    r.bounded.append(bb if "name" in bb else {"name": "backoff_sequences", "error": bb.get("error", bb)})
     return r
